@@ -198,8 +198,50 @@ pub mod {name} {{
             Node::Token(t, _) => out.push(ApiNode {{ index: n.0, is_rule: false, kind: t as u16, span: (sp.start, sp.end), children: vec![], depth }}),
         }}
     }}
+    fn rule_of(kind: u16) -> Rule {{
+        match kind {{ {rule_of}_ => Rule::Error }}
+    }}
+    fn walk_data(d: &CstData, n: NodeRef, depth: usize, out: &mut Vec<ApiNode>) {{
+        if depth > 500 || out.len() > 200_000 {{ panic!("API walk of the tree does not terminate"); }}
+        let sp = d.span(n);
+        match d.get(n) {{
+            Node::Rule(r, _) => {{
+                let at = out.len();
+                out.push(ApiNode {{ index: n.0, is_rule: true, kind: r as u16, span: (sp.start, sp.end), children: vec![], depth }});
+                let kids: Vec<NodeRef> = d.children(n).collect();
+                out[at].children = kids.iter().map(|k| k.0).collect();
+                for k in kids {{ walk_data(d, k, depth + 1, out); }}
+            }}
+            Node::Token(t, _) => out.push(ApiNode {{ index: n.0, is_rule: false, kind: if t == Token::Error {{ 1 }} else {{ 0 }}, span: (sp.start, sp.end), children: vec![], depth }}),
+        }}
+    }}
+    pub struct B {{ d: CstData }}
+    impl vexec::history::Builder for B {{
+        fn reset(&mut self, n: usize) {{ self.d = CstData::new((0..n).map(|i| i..i + 1).collect()); }}
+        fn open(&mut self) -> usize {{ self.d.open().0 }}
+        fn close(&mut self, m: usize, kind: u16) -> usize {{ self.d.close(MarkOpened(m), rule_of(kind)).0 }}
+        fn close_root(&mut self, m: usize, kind: u16) -> usize {{ self.d.close_root(MarkOpened(m), rule_of(kind)).0 }}
+        fn advance(&mut self, _tok: u16, skip: bool) {{ self.d.advance(if skip {{ Token::Error }} else {{ Token::{first_token} }}, skip) }}
+        fn open_before(&mut self, m: usize) -> usize {{ self.d.open_before(MarkClosed(m)).0 }}
+        fn mark(&self) -> usize {{ self.d.mark().0 }}
+        fn snapshot(&self) -> (usize, usize, usize) {{ let t = self.d.mark_truncation(); (t.node_count, t.token_count, t.non_skip_len) }}
+        fn truncate(&mut self, s: (usize, usize, usize)) {{ self.d.truncate(MarkTruncation {{ node_count: s.0, token_count: s.1, non_skip_len: s.2 }}) }}
+        fn nodes(&self) -> Vec<ONode> {{
+            self.d.nodes.iter().map(|n| match n {{
+                Node::Rule(r, e) => ONode::Rule(*r as u16, usize::from(*e)),
+                Node::Token(t, i) => ONode::Token(if *t == Token::Error {{ 1 }} else {{ 0 }}, usize::from(*i)),
+            }}).collect()
+        }}
+        fn api(&self) -> Result<Vec<ApiNode>, String> {{
+            let mut out = vec![];
+            std::panic::catch_unwind(std::panic::AssertUnwindSafe(|| walk_data(&self.d, NodeRef::ROOT, 0, &mut out)))
+                .map_err(|p| p.downcast_ref::<String>().cloned().or_else(|| p.downcast_ref::<&str>().map(|s| s.to_string())).unwrap_or_else(|| "panic".to_string()))?;
+            Ok(out)
+        }}
+    }}
     pub struct S;
     impl vexec::Subject for S {{
+        fn builder(&self) -> Box<dyn vexec::history::Builder> {{ Box::new(B {{ d: CstData::new(vec![]) }}) }}
         fn rule_names(&self) -> &'static [&'static str] {{ RULE_NAMES }}
         fn token_names(&self) -> &'static [&'static str] {{ TOKEN_NAMES }}
         fn run(&self, entry: usize, input: &[u8], script: &Script) -> Obs {{
@@ -238,6 +280,12 @@ pub mod {name} {{
     }}
 }}
 "#,
+        rule_of = variants
+            .iter()
+            .enumerate()
+            .map(|(i, v)| format!("{i} => Rule::{v}, "))
+            .collect::<String>(),
+        first_token = g.tokens[0].name,
         token_list = tokens.join(", "),
         token_names = tokens
             .iter()
@@ -478,6 +526,8 @@ pub struct BOutcome {
     pub crashes: Vec<(usize, String)>,
     pub cache_hits: usize,
     pub batches: usize,
+    /// one compiled batch (engine C runs the tree-builder history exploration on its first parser)
+    pub first_bin: Option<PathBuf>,
 }
 
 pub fn flags(props: &str, len_full: usize, len: usize, len_trivia: usize, dev: usize) -> Vec<String> {
@@ -614,6 +664,7 @@ pub fn run_family(grammars: &[Grammar], args: &[String], run: bool) -> BOutcome 
     }
     let after: usize = std::fs::read_dir(&paths.cache).map(|d| d.count()).unwrap_or(0);
     let batches = bins.len();
+    let first_bin = bins.first().map(|b| b.bin.clone());
     let cache_hits = batches.saturating_sub(after.saturating_sub(before));
     // 3. run
     let mut results: Vec<Option<Value>> = vec![None; gens.len()];
@@ -645,6 +696,7 @@ pub fn run_family(grammars: &[Grammar], args: &[String], run: bool) -> BOutcome 
         crashes,
         cache_hits,
         batches,
+        first_bin,
     }
 }
 
@@ -766,4 +818,17 @@ pub fn shape_class(g: &Grammar) -> String {
     } else {
         f.join("+")
     }
+}
+
+/// Engine C: explicit-state exploration of tree-builder histories on the real `CstData` of one emitted parser.
+pub fn run_history(bin: &Path, depth: usize) -> Result<Value, String> {
+    let (out, status) = run_once(bin, &["--history".to_string(), depth.to_string(), "--only".to_string(), "0".to_string()], 600);
+    if !status.success() {
+        return Err(format!("history exploration died: {status:?}"));
+    }
+    let line = out
+        .lines()
+        .find_map(|l| l.strip_prefix("HISTORY "))
+        .ok_or("no HISTORY line")?;
+    serde_json::from_str(line).map_err(|e| e.to_string())
 }
